@@ -7,6 +7,8 @@ declared frequencies are read from the live operator (op.parameter_frequencies).
 reproduces the lattice samples (ties the spectrum to the real gate)."""
 import json
 import random
+import subprocess
+import sys
 
 import numpy as np
 
@@ -126,18 +128,20 @@ def run_family(pid_tag, jobs, Mj, viol, undefined):
         for a in range(Nj):
             cases.append({"n": job["n"], "ops": job["pre"] + job_ops(job, a, Mj) + job["post"], "meas": [{"t": "expval", "pw": w_} for w_ in job["pws"]]})
     res, stats = tapeeval.evaluate("C09", cases, Mj, raw=True, name="eval_" + pid_tag)
+    # the declared frequencies are queried twice, in opposite orders and each time in a FRESH interpreter, so that state kept
+    # between queries (a memo keyed too coarsely) cannot make the two passes agree
     decls = []
-    for order in (range(len(jobs)), reversed(range(len(jobs)))):
-        d = {}
-        for ji in order:
-            job = jobs[ji]
-            try:
-                fr = qp.gradients.parameter_frequencies(job_plop(job, 1, Mj))[job["pi"]]
-            except Exception as e:
-                undefined[job["name"]] = type(e).__name__
-                fr = None
-            d[ji] = None if fr is None else tuple(float(w) for w in fr)
-        decls.append(d)
+    wdq = lib.workdir("C09", "query_" + pid_tag)
+    (wdq / "jobs.json").write_text(json.dumps(jobs))
+    for oi, order in enumerate(("forward", "reverse")):
+        out = wdq / f"decl_{order}.json"
+        pr = subprocess.run([sys.executable, "-W", "ignore", "-m", "harness.checks.c09", str(wdq / "jobs.json"), str(Mj), order, str(out)],
+                            cwd="/verif", capture_output=True, text=True, timeout=900)
+        if pr.returncode != 0 or not out.exists():
+            raise lib.MachineryError(f"frequency query subprocess failed: {pr.stderr[-400:]}")
+        got = json.loads(out.read_text())
+        decls.append({int(k): (None if v is None else tuple(v)) for k, v in got["decl"].items()})
+        undefined.update(got["undefined"])
     traces, n_dev = [], 0
     for ji, job in enumerate(jobs):
         if decls[0][ji] is None or decls[1][ji] is None:
@@ -316,3 +320,26 @@ def run(tier, seed):
     return CheckResult(coverage=cov, violations=viol, assumptions=[
         "frequencies resolved up to 3.5 before aliasing at M=4 (every declared frequency in the tree is <= 2)",
         "a missing frequency could hide behind a zero coefficient in every sampled context (3-12 random contexts per parameter)"])
+
+
+def _query_main(argv):
+    """subprocess entry: declared frequencies of every job, queried in the given order in this fresh interpreter"""
+    jobs = json.loads(open(argv[0]).read())
+    Mj, order, out = int(argv[1]), argv[2], argv[3]
+    idx = list(range(len(jobs)))
+    if order == "reverse":
+        idx.reverse()
+    decl, undefined = {}, {}
+    for ji in idx:
+        job = jobs[ji]
+        try:
+            fr = qp.gradients.parameter_frequencies(job_plop(job, 1, Mj))[job["pi"]]
+            decl[ji] = [float(w) for w in fr]
+        except Exception as e:
+            undefined[job["name"]] = type(e).__name__
+            decl[ji] = None
+    open(out, "w").write(json.dumps({"decl": decl, "undefined": undefined}))
+
+
+if __name__ == "__main__":
+    _query_main(sys.argv[1:])
